@@ -226,13 +226,20 @@ def h_text_kept(b2: int, b3: int, mask: int) -> bool:
 
 
 # ------------------------------------------------------------------ fields: every instance shown or reported
-FKINDS = ["param", "type", "return", "rtype", "raises", "note", "see"]
+FKINDS = ["param", "type", "return", "rtype", "raises", "note", "see", "consolidated"]
 NFK = len(FKINDS)
 
 
 def field_instance(fmt, kind, n):
     """the n-th (1 or 2) field of that kind -> (lines, marker word or None)"""
     wd = "fw%s%d" % (kind, n)
+    if kind == "consolidated":
+        # reST consolidated fields: a bullet list whose items have several blocks (second paragraph, nested list, literal block)
+        if fmt != "restructuredtext":
+            return [], None
+        name = ["q", "r"][n - 1]
+        head = [":Parameters:"] if n == 1 else []
+        return head + ["    - `%s`: %sa first paragraph" % (name, wd), "", "      %sb second paragraph" % wd, "", "      - %sc nested item" % wd, "", "      %sd literal::" % wd, "", "          %se = literal" % wd, ""], [wd + x for x in "abcde"]
     if fmt in ("epytext", "restructuredtext"):
         a, b = ("@", "") if fmt == "epytext" else (":", ":")
         # the second 'param' documents the same parameter again; the second 'raises' the same exception again
@@ -262,10 +269,10 @@ def check_fields(fmt, counts):
         for n in range(1, c + 1):
             ls, wd = field_instance(fmt, kind, n)
             lines += ls
-            if wd:
-                words.append((kind, n, wd))
+            for w_ in ([wd] if isinstance(wd, str) else (wd or [])):
+                words.append((kind, n, w_))
     doc = "\n".join(lines)
-    src = "def f(p):\n    '''\n" + "".join(("    " + ln if ln else "") + "\n" for ln in doc.split("\n")) + "    '''\n    return p\n"
+    src = "def f(p, q=1, r=2):\n    '''\n" + "".join(("    " + ln if ln else "") + "\n" for ln in doc.split("\n")) + "    '''\n    return p\n"
     sample(docformat=fmt, docstring=doc)
     opts = copy.copy(PJ.OPTS)
     opts.docformat = fmt
@@ -283,16 +290,18 @@ def check_fields(fmt, counts):
 @harness(
     parts=lambda: [[f, a] for f in range(4) for a in range(3)], timeout=(300, 1200), cls="E", tracing="concrete-after-choice", twin="first",
     code=["pydoctor.epydoc2stan.FieldHandler.handle_* / format", "pydoctor.epydoc.markup.epytext (fields)", "pydoctor.epydoc.markup.restructuredtext._SplitFieldsTranslator", "pydoctor.napoleon.docstring (sections)"],
-    bounds={"quick": "every multiset of fields with 0..2 instances of each of 7 kinds (param, type, return, rtype, raises, note, see), 4 docformats (2 187 docstrings each; type/rtype have no google/numpy form)", "thorough": "same"},
+    bounds={"quick": "every multiset of fields with 0..2 instances of each of 7 kinds (param, type, return, rtype, raises, note, see), 4 docformats (2 187 docstrings each; type/rtype have no google/numpy form); reStructuredText also with 0..2 items of a consolidated :Parameters: bullet list whose items have a second paragraph, a nested list and a literal block (6 561)", "thorough": "same"},
     outside="three or more instances of one kind; the other field kinds",
 )
-def h_fields_kept(c1: int, c2: int, c3: int, c4: int, c5: int, c6: int) -> bool:
+def h_fields_kept(c1: int, c2: int, c3: int, c4: int, c5: int, c6: int, c7: int) -> bool:
     """
-    pre: 0 <= c1 <= 2 and 0 <= c2 <= 2 and 0 <= c3 <= 2 and 0 <= c4 <= 2 and 0 <= c5 <= 2 and 0 <= c6 <= 2
+    pre: 0 <= c1 <= 2 and 0 <= c2 <= 2 and 0 <= c3 <= 2 and 0 <= c4 <= 2 and 0 <= c5 <= 2 and 0 <= c6 <= 2 and 0 <= c7 <= 2
     post: _
     """
     fi, c0 = PART if PART is not None else [0, 1]
-    cs = [c0, pick(c1, 0, 2), pick(c2, 0, 2), pick(c3, 0, 2), pick(c4, 0, 2), pick(c5, 0, 2), pick(c6, 0, 2)]
+    if fi != 1 and c7 != 0:
+        return True        # consolidated fields exist in reStructuredText only
+    cs = [c0, pick(c1, 0, 2), pick(c2, 0, 2), pick(c3, 0, 2), pick(c4, 0, 2), pick(c5, 0, 2), pick(c6, 0, 2), pick(c7, 0, 2)]
     with NoTracing():
         ok = check_fields(FORMATS[fi], cs)
     return done(ok)
